@@ -630,6 +630,35 @@ class Model:
         """
         del self._ids[name]
 
+    def _check_new_ids(
+        self,
+        names: Iterable[str],
+        *,
+        ctx: str,
+        ignore: Iterable[str] = (),
+    ) -> None:
+        """Check that all names could be inserted together, without inserting them.
+
+        Args:
+            names: The names to be inserted.
+            ctx: The context associated with the identifiers.
+            ignore: Currently registered names that will be freed beforehand.
+
+        Raises:
+            KeyError: If a name is "time", which is a protected variable.
+            NameError: If a name already exists or is given more than once.
+
+        """
+        taken = set(self._ids).difference(ignore)
+        for name in names:
+            if name == "time":
+                msg = "time is a protected variable for time"
+                raise KeyError(msg)
+            if name in taken:
+                msg = f"Model already contains {ctx} called '{name}'"
+                raise NameError(msg)
+            taken.add(name)
+
     ##########################################################################
     # Parameters - views
     ##########################################################################
@@ -1811,6 +1840,10 @@ class Model:
             Self: The current instance with the added surrogate model.
 
         """
+        self._check_new_ids(
+            [name, *(surrogate.outputs if outputs is None else outputs)],
+            ctx="surrogate",
+        )
         self._insert_id(name=name, ctx="surrogate")
 
         # Update surrogate if necessary
@@ -1856,8 +1889,14 @@ class Model:
             msg = f"Surrogate '{name}' not found in model"
             raise KeyError(msg)
 
+        old_outputs = list(self._surrogates[name].outputs)
         if surrogate is None:
             surrogate = self._surrogates[name]
+        self._check_new_ids(
+            surrogate.outputs if outputs is None else outputs,
+            ctx="surrogate",
+            ignore=old_outputs,
+        )
 
         # Update existing / passed surrogate (other args always take precendece)
         if args is not None:
@@ -1868,7 +1907,7 @@ class Model:
             surrogate.stoichiometries = stoichiometries
 
         # Update ids
-        for i in self._surrogates[name].outputs:
+        for i in old_outputs:
             self._remove_id(name=i)
         for i in surrogate.outputs:
             self._insert_id(name=i, ctx="surrogate")
